@@ -1,0 +1,14 @@
+//go:build verif
+
+package streams
+
+import (
+	publictypes "lunar/engine/streams/public-types"
+)
+
+// VerifC02Quota exposes (for the external verification harness, build tag
+// "verif" only) the quota object the engine holds under the given id, without
+// associating it with a transaction. It adds no behaviour.
+func (s *Stream) VerifC02Quota(quotaID string) (publictypes.QuotaResourceI, error) {
+	return s.resources.GetQuota(quotaID, "")
+}
